@@ -26,8 +26,7 @@ Inductive dpc :=
 | DGet (j : nat)
 | DCat (j : nat) (u : nat) (y : res)
 | DPop (j : nat) (u : nat) (r : eres)
-| DEmit (j : nat) (u : nat) (r : eres)
-| DSleep.
+| DEmit (j : nat) (u : nat) (r : eres).
 
 Record entry := { e_uid : nat; e_slots : list (option res); e_n : nat }.
 
